@@ -19,6 +19,8 @@ type declCase struct {
 	Decls json.RawMessage `json:"decls"`
 	// Version: index of the option declaration made through Cli.Version (absent: none)
 	Version *int `json:"version"`
+	// RunAfter: a help request is served (Run) after the declaration of that index, before the next one (absent: none)
+	RunAfter *int `json:"runafter"`
 }
 
 type declResult struct {
@@ -72,6 +74,9 @@ func runDecl(c declCase) (r declResult) {
 				}
 			})
 			r.Panics, r.Msgs = append(r.Panics, p), append(r.Msgs, m)
+			if c.RunAfter != nil && *c.RunAfter == i {
+				try(func() { app.Run([]string{"app", "--help"}) })
+			}
 		}
 		app.Action = func() {}
 		seen := map[string]bool{}
@@ -123,6 +128,9 @@ func runDecl(c declCase) (r declResult) {
 		i, n := i, n
 		p, m := try(func() { vars[i] = app.String(cli.StringArg{Name: n}) })
 		r.Panics, r.Msgs = append(r.Panics, p), append(r.Msgs, m)
+		if c.RunAfter != nil && *c.RunAfter == i {
+			try(func() { app.Run([]string{"app", "--help"}) })
+		}
 	}
 	// every accepted argument is addressed by its own name in a spec
 	app.Action = func() {}
